@@ -9,7 +9,13 @@ argument expression texts, never by re-tokenising text):
 """
 import vlib
 
-MNEMONICS = ['ld', 'ldx', 'l', 'ldr', 'add', 'addi', 'a', 'mov', 'jmp', 'j', 'halt', 'nop', 'st', 'inc', 'br', 'test']
+MNEMONICS = ['ld', 'ldx', 'l', 'ldr', 'add', 'addi', 'a', 'mov', 'jmp', 'j', 'halt', 'nop', 'st', 'inc', 'br', 'test', 'ld.w', 'st.b', 'jp(hl)', 'in(c)', 'a.b']
+
+
+def mnemonic_tokens(m):
+    """pattern tokens of a mnemonic spelled without blanks (`ld.w` -> ld . w)"""
+    import re
+    return re.findall(r'[A-Za-z_][A-Za-z0-9_]*|[0-9]+|.', m)
 REGS = ['a', 'b', 'r0', 'r1', 'sp', 'hl']
 SUBS = ['reg', 'cond']
 
@@ -75,7 +81,7 @@ def gen_isa(rng, size_static=True, collide=False):
                 prod = '%s @ %s' % (op8, p)
             else:
                 prod = rng.choice(['%s @ %s`8', '%s @ %s`16', '%s @ le(%s`16)', '%s @ %s[7:0]', '%s @ (%s + 1)`8']) % (op8, p)
-            wrap = rng.weighted([(('', ''), 70), (('(', ')'), 10), (('[', ']'), 10), (('#', ''), 10)])
+            wrap = rng.weighted([(('', ''), 62), (('(', ')'), 10), (('[', ']'), 10), (('#', ''), 10), (('r', ''), 8)])
             isa.rules.append(dict(m=m, ops=[('expr', p, typ, wrap)], prod=prod))
         elif k < 55 and isa.subs:
             sub = rng.choice(isa.subs)[0]
@@ -118,8 +124,10 @@ class Prog:
     def render_instr(self, it, style=None, rng=None):
         _, ri, args = it
         r = self.isa.rules[ri]
-        pieces = [('lit', r['m'])]
+        mt = mnemonic_tokens(r['m'])
+        pieces = [('lit', mt[0])] + [('mtok', t) for t in mt[1:]]
         ai = 0
+        first_op = len(pieces)
         for j, o in enumerate(r['ops']):
             if j > 0:
                 pieces.append(('sep', ','))
@@ -135,12 +143,12 @@ class Prog:
                 pieces.append(('arg', args[ai])); ai += 1
         out = []
         for j, (k, t) in enumerate(pieces):
-            if k == 'lit' and style and style.get('case') and rng:
+            if k in ('lit', 'mtok') and style and style.get('case') and rng:
                 t = ''.join(c.upper() if rng.chance(0.5) else c.lower() for c in t) if style['case'] == 'mixed' else t.upper()
             gap = ''
             if j > 0:
-                need = (j == 1) or pieces[j - 1][0] == 'sep'          # after the mnemonic / after a comma: the rule has a blank there
-                if pieces[j - 1][0] == 'punct' or k == 'sep' or (k == 'punct' and pieces[j - 1][0] == 'arg'):
+                need = (j == first_op) or pieces[j - 1][0] == 'sep'   # after the mnemonic / after a comma: the rule has a blank there
+                if pieces[j - 1][0] == 'punct' or k == 'sep' or (k == 'punct' and pieces[j - 1][0] == 'arg') or k == 'mtok':
                     need = False
                 gap = ' ' if need else ''
                 if style and rng and style.get('space'):
@@ -153,7 +161,7 @@ class Prog:
                             gap = ' ' + gap
                     else:
                         # a blank may be inserted at a token boundary where the rule has no whitespace part to satisfy
-                        gap = extra if k != 'punct' or pieces[j - 1][0] != 'lit' else ''
+                        gap = extra if k != 'punct' or pieces[j - 1][0] not in ('lit', 'mtok') else ''
             out.append(gap + t)
         s = ''.join(out)
         if style and rng and style.get('trailing') and rng.chance(0.5):
